@@ -357,7 +357,16 @@ def path_pool(comp, pre):
     return pool
 
 
-def gen_op(rng, pool):
+def gen_op(rng, pool, kind=None):
+    op = _gen_op(rng, pool)
+    if kind == "multi" and op[0] == "openbin" and rng.random() < 0.2:
+        # mode strings `Mode()` rejects like io.open does (several of r/w/x/a, repeated characters); only for
+        # MultiFS, which validates them itself before any member is asked
+        op = ("openbin", op[1], rng.choice(["rw", "wa", "r++", "rr", "ax", "wb+b"]))
+    return op
+
+
+def _gen_op(rng, pool):
     r = rng.random()
     if r < 0.06:
         return ("scandir", H.gen_path(rng, pool, NAMES))
@@ -409,7 +418,7 @@ def run_history(cfg, rng, n_ops, hist, with_close):
         for i in range(n_ops):
             if any(t is None for t in pre):
                 break
-            op = gen_op(rng, path_pool(comp, pre))
+            op = gen_op(rng, path_pool(comp, pre), comp.kind)
             s = record(comp, op, pre, hist, i)
             steps.append(s)
             if s.post is None:
@@ -420,7 +429,7 @@ def run_history(cfg, rng, n_ops, hist, with_close):
             s = record(comp, ("close",), pre, hist, len(steps))
             steps.append(s)
             for k in range(3):  # a few calls on the closed composite: results and routing only
-                op = gen_op(rng, path_pool(comp, pre)) if comp.kind == "multi" or comp.top.mounts else ("exists", "a")
+                op = gen_op(rng, path_pool(comp, pre), comp.kind) if comp.kind == "multi" or comp.top.mounts else ("exists", "a")
                 s = record(comp, op, pre, hist, len(steps))
                 steps.append(s)
                 if s.post is not None:  # members left open by auto_close=False can still change
@@ -659,6 +668,11 @@ def oracle_multi(s, inner_at_pre):
                         found = True
                     except E.ResourceNotFound:
                         pass
+                    except E.DirectoryExpected:
+                        # a file of that name: it answers when it is the highest-priority member containing
+                        # the path, and is shadowed when a higher one holds the path as a directory
+                        if not found:
+                            raise
                 if not found:
                     exp = ("err", "ResourceNotFound")
                 else:
@@ -1008,6 +1022,13 @@ DIRECTED = [
       ("appendbytes", "only-lo", b"+"), ("isempty", "d"), ("move", "only-lo", "moved", False), ("copy", "f", "g", False),
       ("makedirs", "p/q", False), ("removedir", "d"), ("openbin", "f", "r+"), ("openbin", "f", "rt"), ("openbin", "f", "zz"),
       ("scandir", "d"), ("create", "f", False), ("touch", "only-lo"), ("removetree", "d"), ("copydir", "d", "e", True)]),
+    # a name that is a directory in one layer and a file in another, both priority orders
+    ({"kind": "multi", "auto_close": True, "adds": [["d", 1, False], ["f", 0, True], ["d2", -1, False]],
+      "trees": [[["D", "b"], ["F", "b/x", "1"]], [["F", "b", "file"]], [["D", "b"], ["F", "b/y", "2"], ["F", "b/x", "3"]]]},
+     [("listdir", "b"), ("scandir", "b"), ("isempty", "b"), ("listdir", "/"), ("isdir", "b"), ("readbytes", "b"), ("listdir", "c")]),
+    ({"kind": "multi", "auto_close": True, "adds": [["d", 0, False], ["f", 1, True], ["d2", 5, False]],
+      "trees": [[["D", "b"], ["F", "b/x", "1"]], [["F", "b", "file"]], []]},
+     [("listdir", "b"), ("scandir", "b"), ("isempty", "b"), ("isfile", "b"), ("readbytes", "b"), ("listdir", "")]),
     ({"kind": "multi", "auto_close": False, "adds": [["a", 0, False], ["b", 0, False]],
       "trees": [[["F", "f", "first"]], [["F", "f", "second"], ["D", "d"]]]},
      [("readbytes", "f"), ("writebytes", "g", b""), ("makedir", "..", False), ("create", "f", False), ("create", "g", False),
